@@ -75,6 +75,23 @@ pub fn structured_extra(r: &mut Rng, nout: usize) -> Vec<u8> {
     if r.chance(1, 4) { e.push(0); e.extend(vec![0u8; r.below(6) as usize]); }
     e
 }
+/// Deterministic small-scope sweep of transaction SHAPES (independent of the seed): both versions, 0..2 inputs, ring sizes 1 and 2
+/// (the second input of a two-input transaction gets a different ring), no / leading / only coinbase inputs, 0..2 outputs, every
+/// RingCT type, 0 and 1 range proofs. Every dispatch path of the transaction codec is taken on every run, whatever the seed.
+pub fn sweep_shapes() -> Vec<Shape> {
+    let mut v = vec![];
+    for version in [1u64, 2] { for nin in 0..=2usize { for ring in [1usize, 2] { for cb in 0..3 { for nout in 0..=2usize {
+        if nin == 0 && (cb > 0 || ring > 1) { continue; }
+        let rcts: &[RctType] = if version == 1 || nin == 0 { &RCT_TYPES[..1] } else { &RCT_TYPES };
+        for &rct in rcts {
+            let proofs = matches!(rct, RctType::Bulletproof | RctType::Bulletproof2 | RctType::Clsag | RctType::BulletproofPlus);
+            for nbp in 0..=(if proofs { 1usize } else { 0 }) {
+                v.push(Shape { vary_rings: nin == 2, version, nin, ring, nout, coinbase_first: cb == 1, all_coinbase: cb == 2, rct, nbp, extra_len: 3 });
+            }
+        }
+    } } } } }
+    v
+}
 pub fn tx(r: &mut Rng) -> Transaction { let s = shape(r); tx_of(r, &s) }
 
 pub fn miner_tx(r: &mut Rng) -> Transaction {
